@@ -82,7 +82,7 @@ Verdict(c) ==
      ELSE IF c.brute = 1 /\ BottleneckDef(X, Y) # c.hopt THEN <<"machinery", "certificate-vs-definition", alg>>
      ELSE IF c.lattice = 0 THEN <<"fail", "value-off-lattice", alg>>
      ELSE IF c.mine # "C06" /\ c.dist # c.q * c.hopt THEN <<"fail", <<"C01-not-optimal", c.dist, c.q * c.hopt>>, alg>>
-     ELSE IF c.mine # "C06" /\ ((c.warn[1] = 1) # dropped1 \/ (c.warn[2] = 1) # dropped2) THEN <<"fail", "C01-warning-iff-dropped", alg>>
+     ELSE IF c.mine # "C06" /\ ((dropped1 /\ c.warn[1] = 0) \/ (dropped2 /\ c.warn[2] = 0)) THEN <<"fail", "C01-dropped-without-warning", alg>>
      ELSE IF c.hasrows = 1 /\ c.distm # c.dist THEN <<"fail", "C06-distance-differs-with-matching", alg>>
      ELSE IF c.hasrows = 1 /\ ~Certifies(PX, PY, c.rows, c.distm, c.q) THEN <<"fail", "C06-not-a-certificate", alg>>
      ELSE IF alg = "probe-sequence-differs" THEN <<"divergence", alg, alg>>
